@@ -359,6 +359,8 @@ func genDecode() {
 
 // ---------------------------------------------------------------------------------------------- soft (C11)
 
+var sharePtr = map[[2]int]*decimal.Decimal{}
+
 func genSoft() {
 	owners := []owner{newOwner("a"), newOwner("b"), newOwner("c")}
 	lockedOwner := owners[2]
@@ -530,8 +532,13 @@ func genCreate() {
 	} else {
 		shareDen = []int{1, 2, 4, 10, 100}[rng.Intn(5)]
 		shareNum = rng.Intn(shareDen + 1)
-		sf := decimal.New(int64(shareNum), 0).Div(decimal.New(int64(shareDen), 0))
-		p.HoursSelection = transaction.HoursSelection{Type: transaction.HoursSelectionTypeAuto, Mode: transaction.HoursSelectionModeShare, ShareFactor: &sf}
+		// callers keep their parameters: the same share-factor value (the same pointer) is used for every request with this share
+		key := [2]int{shareNum, shareDen}
+		if sharePtr[key] == nil {
+			sf := decimal.New(int64(shareNum), 0).Div(decimal.New(int64(shareDen), 0))
+			sharePtr[key] = &sf
+		}
+		p.HoursSelection = transaction.HoursSelection{Type: transaction.HoursSelectionTypeAuto, Mode: transaction.HoursSelectionModeShare, ShareFactor: sharePtr[key]}
 	}
 	nTo := 1 + rng.Intn(3)
 	if tight {
